@@ -197,4 +197,121 @@ theorem header_line (h : HLine) (p : HPad) (hw : wfHLine h = true) :
     simp only [R]; rw [stringToValue_valuePart, stringToValue_printValue _ _ hv]]
   rfl
 
+/-! ### data lines -/
+
+theorem splitWsAux_token (t rest cur : Str) (ht : ∀ c ∈ t, isSpace c = false) :
+    splitWsAux (t ++ rest) cur = splitWsAux rest (t.reverse ++ cur) := by
+  induction t generalizing cur with
+  | nil => rfl
+  | cons a t ih =>
+    have ha := ht a (List.mem_cons_self)
+    simp only [List.cons_append, splitWsAux, ha, Bool.false_eq_true, if_false]
+    rw [ih _ (fun x hx => ht x (List.mem_cons_of_mem _ hx))]
+    simp
+
+theorem splitWsAux_ws (w rest : Str) (hw : ∀ c ∈ w, isSpace c = true) :
+    splitWsAux (w ++ rest) [] = splitWsAux rest [] := by
+  induction w with
+  | nil => rfl
+  | cons a w ih =>
+    have ha := hw a (List.mem_cons_self)
+    simp only [List.cons_append, splitWsAux, ha, if_true, List.isEmpty_nil]
+    exact ih (fun x hx => hw x (List.mem_cons_of_mem _ hx))
+
+theorem splitWsAux_flush (a : Char) (w rest cur : Str) (ha : isSpace a = true) (hw : ∀ c ∈ w, isSpace c = true)
+    (hcur : cur ≠ []) : splitWsAux (a :: w ++ rest) cur = cur.reverse :: splitWsAux rest [] := by
+  have : cur.isEmpty = false := by cases cur <;> simp_all
+  simp only [List.cons_append, splitWsAux, ha, if_true, this, Bool.false_eq_true, if_false]
+  rw [splitWsAux_ws w rest hw]
+
+theorem blanks_isSpace (l : List Bool) : ∀ c ∈ blanks l, isSpace c = true := by
+  intro c hc
+  simp only [blanks, List.mem_map] at hc
+  obtain ⟨b, _, rfl⟩ := hc
+  cases b <;> decide
+
+/-- a token: non-empty, no white space -/
+def isTok (t : Str) : Prop := t ≠ [] ∧ ∀ c ∈ t, isSpace c = false
+
+theorem splitWsAux_joinToks (toks : List Str) (seps : List (List Bool)) (a : Char) (w : Str)
+    (ha : isSpace a = true) (hw : ∀ c ∈ w, isSpace c = true) (ht : ∀ t ∈ toks, isTok t) :
+    splitWsAux (joinToks toks seps ++ a :: w) [] = toks := by
+  induction toks generalizing seps with
+  | nil =>
+    simp only [joinToks, List.nil_append]
+    have hall : ∀ c ∈ a :: w, isSpace c = true := by
+      intro c hc
+      rcases List.mem_cons.1 hc with h | h
+      · subst h; exact ha
+      · exact hw c h
+    have := splitWsAux_ws (a :: w) [] hall
+    simpa [splitWsAux] using this
+  | cons t ts ih =>
+    have htt := ht t (List.mem_cons_self)
+    cases ts with
+    | nil =>
+      simp only [joinToks]
+      rw [splitWsAux_token t _ [] htt.2]
+      have := splitWsAux_flush a w [] (t.reverse ++ []) ha hw (by simp [htt.1])
+      simp only [List.append_nil] at this
+      rw [List.append_nil, this]
+      simp [splitWsAux]
+    | cons t2 ts =>
+      simp only [joinToks, List.append_assoc]
+      rw [splitWsAux_token t _ [] htt.2]
+      have := splitWsAux_flush ' ' (blanks (seps.headD [])) (joinToks (t2 :: ts) seps.tail ++ a :: w)
+        (t.reverse ++ []) (by decide) (blanks_isSpace _) (by simp [htt.1])
+      simp only [sep, List.cons_append, List.append_nil] at this ⊢
+      rw [this, ih seps.tail (fun x hx => ht x (List.mem_cons_of_mem _ hx))]
+      simp
+
+/-- **one data line**: whatever the blanks/TABs around and between them, `split()` returns the tokens written -/
+theorem data_line_tokens (toks : List Str) (r : RowLay) (ht : ∀ t ∈ toks, isTok t) :
+    splitWs (printDataLine toks r) = toks := by
+  unfold splitWs printDataLine
+  rw [List.append_assoc, List.append_assoc, splitWsAux_ws _ _ (blanks_isSpace r.lead)]
+  cases htr : blanks r.trail with
+  | nil =>
+    exact splitWsAux_joinToks toks r.seps '\n' [] (by decide) (by simp) ht
+  | cons a w =>
+    have hall := blanks_isSpace r.trail
+    rw [htr] at hall
+    have := splitWsAux_joinToks toks r.seps a (w ++ ['\n']) (hall a (List.mem_cons_self))
+      (by intro c hc; rcases List.mem_append.1 hc with h | h
+          · exact hall c (List.mem_cons_of_mem _ h)
+          · simp at h; subst h; decide) ht
+    simpa using this
+
+theorem printCell_isTok (c : DCell) (k : Nat) (hc : wfCell c = true) : isTok (printCell c k) := by
+  cases c with
+  | num m e =>
+    obtain ⟨c0, r, h, _⟩ := printNum_head m e k
+    exact ⟨by simp only [printCell]; rw [h]; simp, fun x hx => (printNum_nospace m e k x hx).1⟩
+  | bad s =>
+    simp only [wfCell, noSpace, Bool.and_eq_true, List.all_eq_true, Bool.not_eq_true', bne_iff_ne, ne_eq] at hc
+    refine ⟨?_, fun x hx => hc.1.1.1.2 x hx⟩
+    intro h; simp only [printCell] at h; rw [h] at hc; simp at hc
+
+theorem printCell_head (c : DCell) (k : Nat) (hc : wfCell c = true) :
+    ∃ x r, printCell c k = x :: r ∧ x ≠ '~' ∧ x ≠ '#' ∧ isSpace x = false := by
+  cases c with
+  | num m e => exact printNum_head m e k
+  | bad s =>
+    simp only [wfCell, noSpace, Bool.and_eq_true, List.all_eq_true, Bool.not_eq_true', bne_iff_ne, ne_eq] at hc
+    cases s with
+    | nil => simp at hc
+    | cons x r =>
+      refine ⟨x, r, rfl, ?_, ?_, hc.1.1.1.2 x List.mem_cons_self⟩
+      · intro h; subst h; simp at hc
+      · intro h; subst h; simp at hc
+
+/-- `_convert_value` on a printed cell: the number written, or null for a token that is not a number -/
+theorem convertValue_printCell (c : DCell) (k : Nat) (hc : wfCell c = true) :
+    convertValue (printCell c k) = expectCell c := by
+  cases c with
+  | num m e => simp only [printCell, convertValue, parseFloat_printNum, expectCell]
+  | bad s =>
+    simp only [wfCell, Bool.and_eq_true, Option.isNone_iff_eq_none] at hc
+    simp only [printCell, convertValue, hc.1.1.2, expectCell]
+
 end TD.C09
